@@ -124,7 +124,19 @@ def reference(desc, role, seq):
         if name == "AvoidStopCodons":
             bad = [i for i, x in enumerate(aas) if x == "*"]
             return Fraction(-len(bad)), [cl(i) for i in bad], not bad
-        return None, [], None
+        # EnforceTranslation: the region must translate (in the given genetic code) to the wanted protein
+        # - the one given, else the translation of the sequence the specification was initialised on,
+        # which here is the evaluated sequence itself; with a start-codon policy a first codon that is a
+        # start codon of the table reads as M.  Table lookups straight from Biopython's CodonTable.
+        if kw.get("start_codon") is not None and sub[:3] in t.start_codons:
+            aas[0] = "M"
+        want = kw.get("translation")
+        if want is None:
+            return Fraction(0), [], True
+        if len(want) != len(aas):
+            return None, [], None
+        bad = [i for i, x in enumerate(aas) if x != want[i]]
+        return Fraction(-len(bad)), [cl(i) for i in bad], not bad
     if name == "UniquifyAllKmers":
         k = kw["k"]
         ref = kw.get("reference")
